@@ -9,6 +9,7 @@ import (
 	"crypto/x509"
 	"encoding/json"
 	"fmt"
+	"hash/fnv"
 	"math/rand"
 	"os"
 	"path/filepath"
@@ -80,7 +81,11 @@ func endorseReal(a *Authority, r *rand.Rand, at time.Time) (*issuedDoc, error) {
 	if r.Intn(2) == 0 {
 		ectx.ClSpec = uint64(1 + r.Intn(1000))
 	} else {
+		// a commit is any non-empty byte string at the library level (SHA-1 or SHA-256 object names)
 		ectx.Commit = []byte{1, 2, 3, 4, 5, 6, 7, 8, 9, 10, 11, 12, 13, 14, 15, 16, 17, 18, 19, 20}
+		if r.Intn(2) == 0 {
+			ectx.Commit = fx.Sha384([]byte("commit"))[:32]
+		}
 	}
 	if r.Intn(4) == 0 { // a document dated before the provenance requirement
 		ectx.Timestamp = time.Date(2024, time.June, 1, 0, 0, 0, 0, time.UTC)
@@ -329,6 +334,11 @@ func RunC03(run *vk.Run) {
 			docs2 := docs
 			root2 := root
 			at := Tn(depth + 1)
+			// "any time flags": some commands deep in a history are dated late in the root's 25-year
+			// validity, so that the new signing certificate outlives the root
+			if lateSum := len(k) + depth + int(run.Seed); depth >= 2 && lateSum%3 == 0 && strings.HasPrefix(kid.ev.Op, "Cmd") && kid.ev.Arg == "rotate" {
+				at = T0.AddDate(21, 0, depth)
+			}
 			viol := func(key, what string, extra map[string]any) {
 				if extra == nil {
 					extra = map[string]any{}
@@ -371,7 +381,10 @@ func RunC03(run *vk.Run) {
 					root2 = r
 				}
 			} else { // Endorse
-				r := rand.New(rand.NewSource(run.Seed*131 + int64(len(h2))*17 + int64(len(k))))
+				// one request per (history, authority combination): seeded by the history's text
+				hh := fnv.New64a()
+				hh.Write([]byte(strings.Join(h2, "|") + "#" + b.Combo.String()))
+				r := rand.New(rand.NewSource(run.Seed*131 + int64(hh.Sum64()>>1)))
 				d, err := endorseReal(b, r, at)
 				if kid.ev.Out == "ok" {
 					if err != nil {
